@@ -1,0 +1,30 @@
+// Verification contracts (comment-only, compiled only with the "verif" build tag; read by /verif/govc).
+
+//go:build verif
+// +build verif
+
+package crypto
+
+// Contracts for crypto.go — property C17, clause "using a high-s signature … is rejected".
+
+// order of the secp256k1 group
+//@ spec func c17N() int = 0xfffffffffffffffffffffffffffffffebaaedce6af48a03bbfd25e8cd0364141
+
+// The two package variables are initialised once (crypto.go:37-38: SetString of the literal above, Div by 2) and never written again.
+//@ axiom [c17.secp256k1-order] secp256k1N != nil && secp256k1halfN != nil && big(secp256k1N) == c17N() && big(secp256k1halfN) == c17N() / 2
+
+// accepted signature values, as the statement wants them: r, s in [1, N), v a recovery bit, and (homestead) s in the lower half
+//@ spec func c17SigOK(v: int, r: int, s: int, homestead: bool) bool =
+//@     1 <= r && r < c17N() && 1 <= s && s < c17N() && (v == 0 || v == 1) && (homestead ==> 2 * s < c17N())
+
+//@ func ValidateSignatureValues props C17
+//@ panics none
+//@ requires r != nil && s != nil
+//@ modifies nothing
+//@ ensures [exactly-the-valid-values] result == c17SigOK(v, big(r), big(s), homestead)
+//@ ensures [high-s-rejected] homestead && 2 * big(s) > c17N() ==> !result
+
+// CreateAddress (Keccak of the RLP of sender and nonce) computes a value; it has no effect on caller-visible state. ASSUMED.
+//@ func CreateAddress props C17
+//@ nobody
+//@ pure
